@@ -3,7 +3,7 @@ import random
 from vlib import tlc, core
 from drivers.funcsignal_drv import FuncSignalDriver
 
-OPS = ['New', 'Read', 'Shift', 'IMul', 'IDiv', 'Filter', 'SetBuffers', 'SetBuffersFail', 'Resample', 'AssignTimes', 'Copy', 'Mul',
+OPS = ['New', 'Read', 'Shift', 'IMul', 'IDiv', 'Filter', 'SetBuffers', 'SetBuffersFail', 'Resample', 'AssignTimes', 'AugTimes', 'Copy', 'Mul',
        'WithTimes', 'Add']
 FINISH = dict(rule='behaviours of FuncSignal.tla (all interleavings of value reads with shift/scale/filter/set_buffers/'
                    'resample/with_times/add/copy/times assignment) executed on FunctionSignal and on FullThermalNoise and '
@@ -44,7 +44,7 @@ def run(r):
     warnings.filterwarnings('ignore')
     for cfg in ('LazyObj_tracer.cfg', 'LazyObj_path.cfg', 'LazyObj_upath.cfg'):
         r.model_check('LazyObjMC', cfg)
-    nl = 1500 if thorough else 120
+    nl = 1500 if thorough else 200
     for cfg, target, kinds in (('LazyObj_tracer.cfg', 'tracer', ['specialized', 'uniform', 'layered', 'basic']),
                                ('LazyObj_path.cfg', 'path', ['specialized', 'basic']),
                                ('LazyObj_upath.cfg', 'path', ['uniform'])):
@@ -60,8 +60,9 @@ def run(r):
         lb, nn, ne, nc = tlc.graph_cover(gl.dot, rng=random.Random(r.seed))
         r.extra['lazyobj_graph_' + target] = {'nodes': nn, 'edges': ne, 'behaviours': len(lb)}
         for kind in kinds:
+            # the eagerly read shadow object only in the simulations above and, on the graphs, for the default tracer (cost)
             r.replay(None, lb, 'LazyObj', '%s %s' % (kind, target), parallel=16, factory=LazyDriver,
-                     factory_kw=dict(kind=kind, target=target))
+                     factory_kw=dict(kind=kind, target=target, eager=thorough))
     wl = r.model_check('LazyObjMC', 'LazyObj_asis.cfg', expect_violation='NoStale')
     r.extra['lazyobj_identity_skip_witness'] = [core.tlaval.to_json(s_['last']) for _, s_ in wl.trace]
     missing = [o for o in OPS + ['Assign', 'AugAssign'] if not r.actions_seen.get(o)]
